@@ -14,25 +14,25 @@ PRE = 'About the hand-written model (coq/theories/Machine.v). Unless said otherw
 # id -> (technique, level text, extra note)
 P = {
  "C01": ("Coq proof (inductive tiling invariants over all schedules: counter machine and ticket machine) + lock-step correspondence",
-         PRE + "c01_exactly_once (all kinds): check_prop 1 = no position is delivered twice (on every run, also with skips and panics) and, when the run has no skip and no panic, once the end has been reported and nothing is pending the deliveries tile the source. The extracted check_prop 1 judges the crate's traces on generated, DFS-enumerated and harness-chosen schedules. The theorem assumes `fused e`. For a wrapped iterator that is not fused: c01_no_duplicate_any_iterator (no position is moved out to two callers, owning or not), c01_yielded_exactly_once_any_iterator (owning; at a quiescent point with no buffered iterator kept, moved-out and destroyed positions tile [0, cursor): everything the wrapped iterator ever yielded is delivered or destroyed exactly once), c01_delivered_count_any_iterator (quiescent, no panic: as many elements delivered as the wrapped iterator yielded), c01_exactly_once_until_first_gap (check_prop 1 in full on every run in which no call of the wrapped next() has yet answered None prematurely).",
+         PRE + "c01_exactly_once (all kinds): check_prop 1 = no position is delivered twice (on every run, also with skips and panics) and, when the run has no skip and no panic, once the end has been reported and nothing is pending the deliveries tile the source. The extracted check_prop 1 judges the crate's traces on generated, DFS-enumerated and harness-chosen schedules. The theorem assumes `fused e`. For a wrapped iterator that is not fused: c01_no_duplicate_any_iterator (no position is moved out to two callers, owning or not), c01_yielded_exactly_once_any_iterator (owning; at a quiescent point with no buffered iterator kept, moved-out and destroyed positions tile [0, cursor): everything the wrapped iterator ever yielded is delivered or destroyed exactly once), c01_delivered_count_any_iterator (quiescent, no panic: as many elements delivered as the wrapped iterator yielded), c01_exactly_once_until_first_gap (check_prop 1 in full on every run in which no call of the wrapped next() has yet answered None prematurely). After repair F19 (no call of the wrapped next() once one has answered None): c01_no_duplicate_checker_any_iterator (chk_C01_nodup itself, any wrapped iterator), c01_exactly_once_any_iterator (check_prop 1 judged against the environment cut at the first premature None, `cut e g`), c01_any_iterator_runs_as_fused (the run of ANY wrapped iterator is, up to the answers of length queries, the run of a fused iterator of the shorter length, and check_prop 1,2,3,4,6,12 hold of it), c01_any_iterator_same_run (without an exact hint the two runs are equal configurations).",
          "The no-loss clause is proved and checked only for runs without skip_to_end and without panics (with them the property itself does not demand it). The model executes one call of the wrapped next() as one step; justified by c07_mutual_exclusion."),
  "C02": ("Coq proof (per-event invariant; wrapped iterator: taken elements are [b, b+k) where b is the ticket) + lock-step correspondence",
-         PRE + "c02_index_fidelity (all kinds): chk_C02 = every reported index is the element's source position (single pulls, chunk offsets, ids_and_values, enumerate_for_each), on every run including runs with panics. The theorem assumes `fused e`; c02_index_fidelity_until_first_gap: the same for any wrapped iterator on every run up to its first premature None (after one, indices run ahead of positions: Examples.gap_hypotheses_hold).",
+         PRE + "c02_index_fidelity (all kinds): chk_C02 = every reported index is the element's source position (single pulls, chunk offsets, ids_and_values, enumerate_for_each), on every run including runs with panics. The theorem assumes `fused e`; c02_index_fidelity_until_first_gap: the same for any wrapped iterator on every run up to its first premature None (after one, indices run ahead of positions: Examples.gap_hypotheses_hold). c02_index_fidelity_any_iterator: check_prop 2 for ANY wrapped iterator, fused or not (true since repair F19).",
          "Elements are identified with their positions in the model: 'the element a sequential iteration would produce' is decided on the crate by values that are an injective non-monotone function of the position (correspondence only)."),
  "C03": ("Coq proof (per-event invariant, chunk arithmetic by lia; partial chunks of the ticket machine end at the source's end) + lock-step correspondence",
-         PRE + "c03_chunk_contract (all kinds): chk_C03 = a returned chunk is non-empty, not longer than requested, consecutive from its begin index, announces its exact length before and after partial consumption, and is short only at the end of the source; one-shot and buffered. The theorem assumes `fused e`; c03_chunk_contract_until_first_gap: the same for any wrapped iterator up to its first premature None.",
+         PRE + "c03_chunk_contract (all kinds): chk_C03 = a returned chunk is non-empty, not longer than requested, consecutive from its begin index, announces its exact length before and after partial consumption, and is short only at the end of the source; one-shot and buffered. The theorem assumes `fused e`; c03_chunk_contract_until_first_gap: the same for any wrapped iterator up to its first premature None. c03_chunk_contract_any_iterator: check_prop 3 judged against the environment cut at the first premature None (a chunk may be short there: that None is the end).",
          "chk_C03 does not constrain a pull that panicked, nor a buffered pull whose buffered_iter call is not in the trace. The slots of the wrapped iterator's re-used buffer are modelled."),
  "C04": ("Coq proof (tiling invariants; induction over the schedule for the quiescent prefix) + lock-step correspondence with call/return times",
-         PRE + "c04_linearizable_cursor (all kinds): check_prop 4 = no position twice, each thread receives increasing positions and a pull that starts after another returned receives larger positions (on every run), and, on runs without panics, at every point of the history where no call is pending the delivered positions are a gap-free prefix. The theorem assumes `fused e`; c04_linearizable_cursor_until_first_gap: the same for any wrapped iterator up to its first premature None.",
+         PRE + "c04_linearizable_cursor (all kinds): check_prop 4 = no position twice, each thread receives increasing positions and a pull that starts after another returned receives larger positions (on every run), and, on runs without panics, at every point of the history where no call is pending the delivered positions are a gap-free prefix. The theorem assumes `fused e`; c04_linearizable_cursor_until_first_gap: the same for any wrapped iterator up to its first premature None. c04_linearizable_cursor_any_iterator: check_prop 4 for ANY wrapped iterator (true since repair F19).",
          "The sequential corollary (a single-threaded history equals the sequential iterator) is not stated as a theorem: it is the one-thread instance together with C02/C03."),
  "C05": ("Coq proof (monotone counter; completed flag / exhausted cursor are stable and every later pull is doomed not to take) + lock-step correspondence",
          PRE + "c05_end_is_permanent (all kinds): chk_C05 = after an end report every later-starting pull reports the end and delivers nothing and every later length query reports zero / unknown. c05_end_is_permanent holds for wrapped iterators that are NOT fused as well (src_env does not mention e_gap); c05_end_is_permanent_any_iterator states it for them explicitly (check_prop 5). The crate's non-fused histories run in lock step with the model.", ""),
  "C06": ("Coq proof (invariants with skip bookkeeping; wrapped iterator: skip raises the completed flag, which every later pull tests first) + lock-step correspondence",
-         PRE + "c06_skip_to_end (all kinds): check_prop 6 = chk_C06 on every run: after a returned skip_to_end later-starting pulls report the end and has_more is No; no position twice; index fidelity; per-thread order; any number of skips anywhere. The theorem assumes `fused e`; c06_skip_stops_any_iterator (any wrapped iterator: chk_C06_stop = after a returned skip later-starting pulls report the end and has_more is No), c06_skip_to_end_until_first_gap (check_prop 6 in full up to the first premature None).",
+         PRE + "c06_skip_to_end (all kinds): check_prop 6 = chk_C06 on every run: after a returned skip_to_end later-starting pulls report the end and has_more is No; no position twice; index fidelity; per-thread order; any number of skips anywhere. The theorem assumes `fused e`; c06_skip_stops_any_iterator (any wrapped iterator: chk_C06_stop = after a returned skip later-starting pulls report the end and has_more is No), c06_skip_to_end_until_first_gap (check_prop 6 in full up to the first premature None). c06_skip_to_end_any_iterator: check_prop 6 in full for ANY wrapped iterator (true since repair F19).",
          "That elements delivered before the skip stay valid is the ledger of C08, not part of this checker. Found F13 (range skip stored the end value), repaired by a fix: commit."),
  "C07": ("Coq proof (ticket-protocol invariant => mutual exclusion; vector-clock invariant over the orderings extracted from the source => happens-before) + translator for the memory orderings + lock-step correspondence with orderings compared",
          "THE PROPERTY DOES NOT HOLD ON THE TREE WITHOUT RESTRICTION (known finding F14: a cumulative reservation of 2^64 or more wraps the reserved counter and two pullers enter the wrapped next() together); what is proved is its restriction to runs that do not wrap. " + PRE +
-         "c07_mutual_exclusion (wrapped): in every reachable state at most one thread is between its entry to and exit from the wrapped iterator. c07_happens_before (wrapped): chk_C07_hb is true on the label stream: every use of the wrapped iterator happens-after the previous one under the C11 release/acquire rules, for the orderings that tools/extract_orderings.py reads out of the source on every run (obligation on the source: sufficient = true). c07_label_stream_scan (wrapped): the mutual-exclusion scan of the label stream is true. The same extracted checker (scan + vector clocks) judges the crate's label streams, whose orderings are reported by the shim.",
+         "c07_mutual_exclusion (wrapped): in every reachable state at most one thread is between its entry to and exit from the wrapped iterator. c07_happens_before (wrapped): chk_C07_hb is true on the label stream: every use of the wrapped iterator happens-after the previous one under the C11 release/acquire rules, for the orderings that tools/extract_orderings.py reads out of the source on every run (obligation on the source: sufficient = true). c07_label_stream_scan (wrapped): the mutual-exclusion scan of the label stream is true. The same extracted checker (scan + vector clocks) judges the crate's label streams, whose orderings are reported by the shim. c07_no_call_after_none / c07_no_call_after_none_or_panic / c07_none_is_final (wrapped, any e_gap): once a call of the wrapped next() has answered None (or panicked), no label of the run is a later call of it, no thread is inside it, and the completed flag is up or the thread that met the end is about to raise it -- the wrapped iterator observes the use `next()* until the first None` of a sequential for-loop, also when it is not fused (repair F19).",
          "Happens-before is computed over sequentially consistent interleavings of the atomics (every load reads the latest write); that this is enough for this protocol under weaker executions is argued informally, not proved. Only the wrapped iterator's cell is a non-atomic location of the model: races on slices, vector elements and buffers are excluded through C01/C08 (disjoint positions), not by a memory-model theorem (partial)."),
  "C08": ("Coq proof (ledger invariants: taken and destroyed positions tile / are a permutation of what was reserved / yielded) + drop-ledger correspondence",
          PRE + "c08_known_kinds_run (known kinds): chk_C08 at every point of every run = for consuming vectors and arrays the moved-out and the machinery-destroyed intervals are pairwise disjoint and inside the source; for borrowed sources nothing is destroyed. c08_known_kinds_end_of_life: after drop or into_seq_iter (any number taken from the remainder) at any quiescent point they are also all of the source. c08_wrapped_iterator_run / c08_wrapped_iterator_end_of_life (wrapped, owning or not, with the re-used buffer's stale slots, panics of the wrapped iterator and of closures): the same; the end-of-life theorem additionally assumes that every thread has dropped its buffered iterator. On the crate chunks are also consumed through nth, skip, last, count, fold, step_by (ledger-only stream).",
@@ -47,7 +47,7 @@ P = {
          PRE + "c11_known_kinds, c11_wrapped_iterator: chk_C11 = a query made and answered while nothing else is pending (and no panic so far) equals the number of elements still to be delivered (known length) or is unknown only for sources without an exact hint; after a single or one-shot pull reported the end the answer is zero; at any time a reported length never exceeds the smallest reported before; once zero has been reported every later-starting operation delivers nothing. c11_wrapped_iterator assumes `fused e` (an exact size hint of an iterator that ends early is not truthful); c11_wrapped_iterator_any_iterator: the same for every wrapped iterator without an exact hint, fused or not; c11_wrapped_iterator_until_first_gap: with any hint up to the first premature None.",
          "The exact size hint of the wrapped iterator is assumed truthful. The checker identifies Yes(0) with No; 'Maybe only for unknown size' is constrained at quiescent queries only."),
  "C12": ("Coq proof (loop accumulator invariant on both machines; permutation argument for fold) + lock-step correspondence",
-         PRE + "c12_loops (all kinds): check_prop 12 = closure invocations carry the right index shape, no position twice, index fidelity, end permanence (on every run), and on runs without skip and panic the deliveries tile the source once the end is reported and nothing is pending (a returned loop is an end report). c12_fold_combination (all kinds, complete runs without skip and panic): for every type with an associative and commutative operation and its neutral element and every f, folding what each thread was handed and combining the per-thread results equals the fold of f over the source positions. Both theorems assume `fused e`; c12_loop_shape_any_iterator (index shape and end permanence for any wrapped iterator), c12_loops_until_first_gap (check_prop 12 in full up to the first premature None).", ""),
+         PRE + "c12_loops (all kinds): check_prop 12 = closure invocations carry the right index shape, no position twice, index fidelity, end permanence (on every run), and on runs without skip and panic the deliveries tile the source once the end is reported and nothing is pending (a returned loop is an end report). c12_fold_combination (all kinds, complete runs without skip and panic): for every type with an associative and commutative operation and its neutral element and every f, folding what each thread was handed and combining the per-thread results equals the fold of f over the source positions. Both theorems assume `fused e`; c12_loop_shape_any_iterator (index shape and end permanence for any wrapped iterator), c12_loops_until_first_gap (check_prop 12 in full up to the first premature None). c12_loops_but_no_loss_any_iterator (shape, no position twice, index fidelity, end permanence for ANY wrapped iterator) and c12_loops_any_iterator (check_prop 12 judged against the environment cut at the first premature None).", ""),
  "C13": ("Coq proof (the model gives the adaptors no behaviour of their own; the adaptors' source is pinned to the reviewed forwarding code by a translator; ledger theorem for borrowed sources) + twin lock-step correspondence on the crate",
          PRE + "c13_adaptor_transparent (every environment, no hypothesis): the run and the end of life of the model under cloned()/copied() equal those of the underlying iterator as whole configurations -- true by construction (step never reads e_adaptor). c13_adaptors_are_the_reviewed_forwarders: the list of every method of Cloned / Copied / their buffered chunks with its body, regenerated from the source on every run (tools/extract_adaptors.py), equals the reviewed list in which every method forwards to the underlying iterator and clones / copies what comes back, and fetch_one is not overridden. c13_source_untouched (known kinds, borrowed) and c13_borrowed_source_untouched (every kind whose elements are not owned, no hypothesis on the run): no event reports a destroyed element. On the crate every adaptor history is also run on an identical underlying iterator under the same schedule and the event streams must be equal.",
          "That the delivered values are clones of exactly the elements is decided on the crate only (values are positions in the model)."),
